@@ -316,7 +316,12 @@ def judgePrim (ct ot : List String) : Option Verdict := do
               else (none, note)
           | _, _ => (some ("shape", "missing nseq/nepoch"), "")
       | none, _ => (some ("record-open", s!"suite {id} is not a GB/T 38636 SM2 suite"), "")
-      | _, none => (some ("shape", "no wire="), "")
+      | _, none =>
+        -- the stream stack refuses to let the implicit sequence number wrap (it panics after sealing the record
+        -- numbered 2^64-1): legitimate exactly when this write needs a sequence number beyond that
+        let nrec := if maxp == 0 then 1 else max 1 ((payload.length + maxp - 1) / maxp)
+        (if (kv ot "panic").isSome && mst == .tlcp && seq + nrec ≥ 2^64 then none
+         else some ("shape", "no wire="), "refuses-to-wrap")
     return { model := model, spec := spec.1, note := spec.2 }
   if op == "dec" then
     let rec ← kvHex ct "rec"
